@@ -162,6 +162,11 @@ func DiffDumps(a, b *Dump) string {
 					if math.Abs(float64(va.Vec[i])-float64(vb.Vec[i])) > tol {
 						return fmt.Sprintf("index %s (int8) id %s component %d moved by more than a quantisation step: before=%v (range %g) after=%v (range %g)", name, id, i, va.Vec, ia.AbsMax, vb.Vec, ib.AbsMax)
 					}
+				} else if ia.Metric == "cosine" && ia.Prec == "float32" {
+					// stored normalised; replay re-normalises, which may move a component by an ulp (DESIGN.md section 8)
+					if math.Abs(float64(va.Vec[i])-float64(vb.Vec[i])) > 1e-6*(1+math.Abs(float64(va.Vec[i]))) {
+						return fmt.Sprintf("index %s id %s vector differs beyond re-normalisation noise: before=%v after=%v", name, id, va.Vec, vb.Vec)
+					}
 				} else if va.Vec[i] != vb.Vec[i] {
 					return fmt.Sprintf("index %s id %s vector differs: before=%v after=%v", name, id, va.Vec, vb.Vec)
 				}
